@@ -500,10 +500,10 @@ def _check(name, p, dm, vec, mat, res, fail, eq, nz, distinct_nz, caught):
         inv = ~A
         if det == 0:
             res.tags['inverse_branch'].add('singular')
-            if inv is not A or not caught:
+            if not (inv is A or list(inv) == list(a)) or not caught:
                 fail('singular matrix must be returned unchanged with a '
-                     'warning', 'same object + warning',
-                     [inv is A, len(caught)])
+                     'warning', 'the same matrix + warning',
+                     [list(inv) == list(a), len(caught)])
         else:
             res.tags['inverse_branch'].add('regular')
             if inv is A:
@@ -523,9 +523,10 @@ def _check(name, p, dm, vec, mat, res, fail, eq, nz, distinct_nz, caught):
             res.stats['singular_generator_missed'] += 1
             return
         inv = ~A
-        if inv is not A or not caught:
+        if not (inv is A or list(inv) == list(a)) or not caught:
             fail('singular matrix must be returned unchanged with a warning',
-                 'same object + warning', [inv is A, len(caught)])
+                 'the same matrix + warning',
+                 [list(inv) == list(a), len(caught)])
         res.nontrivial = True
     elif name == 'mat_translate':
         a, v = p['a'], p['v']
